@@ -26,6 +26,12 @@ theorem C01_roundtrip_partial (O : Oracle) (hO : OracleOK O) (cfg : Cfg) (hcfg :
     | _ => simp at h
   | _ => simp at h
 
+/-- "the diff is empty exactly when A and B are identical", the direction that needs the round trip -/
+theorem C01_empty_diff_only_if_equal (O : Oracle) (hO : OracleOK O) (cfg : Cfg) (hcfg : cfgSoundB cfg = true)
+    (a b : J) (ca : a.canonical = true) (cb : b.canonical = true) (hab : Compat a b)
+    (h : diffNotebooks O cfg a b = .ok []) : a = b :=
+  (patch_nil a b ca (C01_roundtrip_partial O hO cfg hcfg a b [] ca cb hab h)).symm
+
 /-- the differ tables of the pinned tree (the check regenerates this literal from the live tables on
     every run and discharges `cfgSoundB` for it) -/
 def pinnedNbCfg : Cfg :=
